@@ -44,6 +44,10 @@ type seekableDecryptingReader struct {
 	numSegments   int64
 	plaintextLen  int64
 
+	// lastSegmentVerified records that the final segment (whose nonce carries
+	// the "last" flag and thereby authenticates the total length) was decrypted.
+	lastSegmentVerified bool
+
 	pos       int64 // current plaintext position
 	segIndex  int64 // segment currently buffered, -1 if none
 	segStart  int64 // plaintext offset where the buffered segment begins
@@ -192,12 +196,23 @@ func (s *seekableDecryptingReader) loadSegment(j int64) error {
 	}
 	s.plaintext = plaintext
 	s.segIndex = j
+	if j == s.numSegments-1 {
+		s.lastSegmentVerified = true
+	}
 	s.segStart = s.plaintextStartOfSegment(j)
 	return nil
 }
 
 func (s *seekableDecryptingReader) Read(p []byte) (int, error) {
 	if s.pos >= s.plaintextLen {
+		// plaintextLen is derived from the (unauthenticated) ciphertext size. Only
+		// the final segment proves that nothing was cut off or appended, so EOF
+		// must not be reported before that segment has been authenticated.
+		if !s.lastSegmentVerified {
+			if err := s.loadSegment(s.numSegments - 1); err != nil {
+				return 0, err
+			}
+		}
 		return 0, io.EOF
 	}
 	j := s.segmentForPlaintextOffset(s.pos)
